@@ -201,12 +201,13 @@ func BuildOverlay(cfg Config) (ov map[string][]byte, rep *NormReport) {
 		rep.Failed = "pre-load: " + err.Error()
 		return nil, rep
 	}
+	ren := FindRenames(roots)
 	overlay := map[string][]byte{}
 	for _, pk := range roots {
 		if !unknownPkgs[pk.PkgPath] || len(pk.Errors) > 0 || pk.Types == nil {
 			continue
 		}
-		n := &pkgNorm{pk: pk, rep: rep, fset: fset}
+		n := &pkgNorm{pk: pk, rep: rep, fset: fset, renamed: ren.NewNames}
 		files := n.run()
 		for name, src := range files {
 			overlay[name] = src
@@ -233,6 +234,7 @@ type pkgNorm struct {
 	parents map[ast.Node]ast.Node
 	counter int
 	kept    map[string]bool
+	renamed map[string]bool // inventory keys of functions that are renames of known ones
 }
 
 type edit struct {
@@ -443,7 +445,7 @@ func (n *pkgNorm) round() map[string][]edit {
 				continue
 			}
 			key := funcKey(n.pk.PkgPath, fd)
-			if knownFuncs[key] || fd.Name.Name == "init" || fd.Name.Name == "main" || fd.Name.Name == "_" {
+			if knownFuncs[key] || n.renamed[key] || fd.Name.Name == "init" || fd.Name.Name == "main" || fd.Name.Name == "_" {
 				continue
 			}
 			obj, _ := n.info.Defs[fd.Name].(*types.Func)
@@ -1807,7 +1809,7 @@ func (n *pkgNorm) removeDead() map[string][]edit {
 				continue
 			}
 			key := funcKey(n.pk.PkgPath, fd)
-			if knownFuncs[key] || fd.Name.Name == "init" || fd.Name.Name == "main" {
+			if knownFuncs[key] || n.renamed[key] || fd.Name.Name == "init" || fd.Name.Name == "main" {
 				continue
 			}
 			obj, _ := n.info.Defs[fd.Name].(*types.Func)
